@@ -35,8 +35,14 @@ Small == /\ ~done
 
 (* a variant without discriminant / with a non-literal one *)
 Forms == /\ ~done
-         /\ \E exh \in Exhs : \E form \in {"missing", "expr"} : \E pos \in 1..3 : \E size \in {3, 4} :
-              e' = [Plain(2, exh, 0..(size - 1), "asc") EXCEPT !.variants[pos].form = form]
+         /\ \/ \E exh \in Exhs : \E form \in {"missing", "expr"} : \E pos \in 1..3 : \E size \in {3, 4} :
+                 e' = [Plain(2, exh, 0..(size - 1), "asc") EXCEPT !.variants[pos].form = form]
+            (* literal discriminants in other spellings: hex, binary, octal, underscores (valid; the macro must read their value) *)
+            \/ \E exh \in Exhs : \E form \in LitForms \ {"lit"} : \E size \in {3, 4} :
+                 e' = [Plain(2, exh, 0..(size - 1), "desc") EXCEPT !.variants[1].form = form, !.variants[size].form = form]
+            \/ \E exh \in {"false", "true"} : \E form \in LitForms \ {"lit"} : \E n \in {4, 8, 12} : \E top \in {2^n - 1, 2^n} :
+                 e' = [name |-> "E", n |-> n, exh |-> exh, variants |->
+                         <<V(0, <<>>, "none", form), V(1, DSeq(top, n + 1), "none", form), V(2, DSeq(10, n + 1), "none", "lit")>>]
          /\ done' = TRUE
 
 (* cfg-gated variants: a gated extra value, or two variants sharing a value under exclusive gates *)
